@@ -91,6 +91,13 @@ reg('C05', 'Hypothesis generated datasets/geometries/requests vs definition orac
     'channel set up to documented don\'t-care bands) against quantities recomputed from the '
     'stored arrays.', TRUST + DS + ' float32 rounding handled by rtol 1e-5 and decision bands.')
 
+reg('C06', 'Hypothesis generated sparse triples and feature stores vs triple-loop oracle; PCA vs eigh oracle',
+    'Generated (data, column table, request) triples incl. trailing dimensions, unknown channels, '
+    'empty inputs and unsigned tables are densified and compared exactly with a triple-loop '
+    'definition; generated datasets exercise get_features / get_template_features with and '
+    'without row tables; the no-feature-file path is compared (sign-free, eigen-gap guarded) with '
+    'projections on eigenvectors computed independently.', TRUST + DS + ' numpy.linalg.eigh.')
+
 
 def main():
     props = [json.loads(l) for l in (HERE / 'properties.jsonl').read_text().splitlines() if l.strip()]
